@@ -47,3 +47,39 @@ def WM_INV(wm, outstanding):
 
 def WM_RANGE(wm):
     return wm.max_window_size <= MAXWIN and wm.current_window_size <= MAXWIN
+
+
+# ---------------------------------------------------------------------------
+# Global representation invariant of H2Connection (DESIGN 2.4 / 2.7): every
+# public method is verified to preserve it on normal AND exceptional exits.
+def own_parity(c):
+    return 1 if c.config.client_side else 0
+
+
+def watermark(c, k):
+    return c.highest_outbound_stream_id if k % 2 == own_parity(c) else c.highest_inbound_stream_id
+
+
+def STREAM_INV(c, s, k):
+    return (s.stream_id == k and s.state_machine.stream_id == k and k >= 1
+            and SM_INV(s.state_machine)
+            and s.max_outbound_frame_size == c.max_outbound_frame_size
+            and k <= watermark(c, k)
+            and s._inbound_window_manager.max_window_size <= MAXWIN
+            and s._inbound_window_manager.current_window_size <= MAXWIN
+            and s._inbound_window_manager._bytes_processed >= 0
+            and s.outbound_flow_control_window <= MAXWIN
+            and s._actual_content_length >= 0)
+
+
+def GI(c):
+    return (16384 <= c.max_outbound_frame_size and c.max_outbound_frame_size <= 16777215
+            and 16384 <= c.max_inbound_frame_size and c.max_inbound_frame_size <= 16777215
+            and c.highest_inbound_stream_id >= 0 and c.highest_outbound_stream_id >= 0
+            and (c.highest_outbound_stream_id == 0 or c.highest_outbound_stream_id % 2 == own_parity(c))
+            and (c.highest_inbound_stream_id == 0 or c.highest_inbound_stream_id % 2 != own_parity(c))
+            and c.outbound_flow_control_window <= MAXWIN
+            and c._inbound_flow_control_window_manager.max_window_size <= MAXWIN
+            and c._inbound_flow_control_window_manager.current_window_size <= MAXWIN
+            and c._inbound_flow_control_window_manager._bytes_processed >= 0
+            and all(STREAM_INV(c, c.streams[k], k) for k in c.streams))
